@@ -684,6 +684,25 @@ pub fn c10(thorough: bool) -> Vec<Part> {
         cfg.max_outstanding_for_respond = 3;
         explore_req(&mut part, &cfg, 300_000, if thorough { 600.0 } else { 60.0 }, &["client_shutdown_rd", "two_requests_yielded_by_one_poll"]);
     }
+    {
+        // a client that sends an Expect head (interim response queued) and hangs up before it is
+        // written; and one that does so after a complete request
+        let mut est = ClientCfg::well_behaved(vec![tagged_get(0, 0)]);
+        est.preconnected = true;
+        let mut seg = tagged_get(2, 0);
+        seg.extend_from_slice(&tagged_expect_head(2, 1, 3));
+        let mk = |script: Vec<Vec<u8>>| {
+            let mut a = ClientCfg::adversary(script);
+            a.can_shut_rd = false;
+            a.can_shut_wr = false;
+            a
+        };
+        let mut cfg = SrvCfg::base("C10", "clients hanging up with an unwritten interim response (Expect head alone / behind a complete request)", vec![est, mk(vec![tagged_expect_head(1, 0, 3)]), mk(vec![seg])]);
+        cfg.release_check = true;
+        cfg.closure_all = true;
+        cfg.max_outstanding_for_respond = 2;
+        explore(&mut part, &cfg, 300_000, if thorough { 600.0 } else { 40.0 });
+    }
     for cfg in cfgs {
         let req: &[&str] = if cfg.label.starts_with("10 established") {
             &["client_connected_at_capacity_and_was_refused", "ten_connections_open", "poll_with_nonascending_order"]
